@@ -54,15 +54,15 @@ def sourceHashes : List (String × String) :=
    ("op.go quo", "88d5dd115428d689"),
    ("op.go lower", "d81ccb894c300fc6")]
 
--- Final sync on the frozen tree (/repo at 4adaaf3). Rows of the first two levels that changed since ba001d8, each reviewed:
---   case landExpr#0 / lorExpr#0: check.logicalExpr and folding of two CONSTANT operands added (d04f498, 5877dba); wiring unchanged
+-- Final sync on the frozen tree (/repo at 48cb9d4). Rows of the first two levels that changed since ba001d8, each reviewed:
+--   case landExpr#0 / lorExpr#0: check.logicalExpr and folding of two CONSTANT operands added (b3f92e0, 5877dba); wiring unchanged
 --   case parenExpr#0 / #1: type propagation skipped under comparisons (isBoolAction); #2 is a new empty clause in assignXStmt
 --     (assignment-mismatch check), the post-order clause is now #3 and unchanged
---   assignStmt: skip-assign switch / unaryExpr: findex switch: the channel-receive shortcut removed (177a151) — not in the fragment
+--   assignStmt: skip-assign switch / unaryExpr: findex switch: the channel-receive shortcut removed (212dc2e) — not in the fragment
 -- closure fragment (Model/Closures.lean): copy of the extractor output on the same tree. Reviewed since the model was written (2e388d6):
 -- da35a0b hidden slot of a ranged pointer-to-array and 2d45b63 "cannot range over" check (rangeStmt slots); 8bd8040 + 6ebc898 redeclared
--- marking of multi-variable `:=`; d26dd9e getFunc without the reset of its temporary slot, newCallFrame; 231dea3 rangeInt copies the bound
--- (fact "rangeInt keeps the value object of the bound" false: F51 repaired); 1c8103f isLoopVarCopy — a define of the loop variable's name
+-- marking of multi-variable `:=`; d26dd9e getFunc without the reset of its temporary slot, newCallFrame; 716c992 rangeInt copies the bound
+-- (fact "rangeInt keeps the value object of the bound" false: F51 repaired); 26ad67e isLoopVarCopy — a define of the loop variable's name
 -- in the loop body takes a slot of its own (fact "… is a nop" false: F52 repaired).
 /-- fingerprints of the functions and clauses Model/Closures.lean transcribes -/
 def closureHashes : List (String × String) :=
